@@ -157,13 +157,14 @@ def leaf_tables(ctx: Ctx) -> dict[str, str]:
     T = 'TypeOfElementaryExpression'
     c = prog.find_class('Beta', 'expressions')
     g = c.methods['dict_of_elementary_expression']
-    good = (
-        has(g.node, f'if the_type == {T}.BETA:\n    return {{self.name: self}}')
-        and has(g.node, f'if the_type == {T}.FREE_BETA and self.status == 0:\n    return {{self.name: self}}')
-        and has(g.node, f'if the_type == {T}.FIXED_BETA and self.status != 0:\n    return {{self.name: self}}')
-        and unparse(g.body[-1]) == 'return {}'
-    )
-    ctx.add('C01.R5', 'Beta.dict_of_elementary_expression', good, g, 'Beta: FREE_BETA iff status == 0, FIXED_BETA iff status != 0' if good else 'Beta: free/fixed classification not in the expected form', 'beta-kinds')
+    tests = [n for n in walk_no_nested(g.node) if isinstance(n, ast.If)]
+    good = None
+    if len(tests) == 1 and not tests[0].orelse and body_is(tests[0].body, 'return {self.name: self}') is not None and unparse(g.body[-1]) == 'return {}':
+        t = tests[0].test
+        disj = {unparse(v).replace('(', '').replace(')', '') for v in (t.values if isinstance(t, ast.BoolOp) and isinstance(t.op, ast.Or) else [t])}
+        want = {f'the_type == {T}.BETA', f'the_type == {T}.FREE_BETA and self.status == 0', f'the_type == {T}.FIXED_BETA and self.status != 0'}
+        good = disj == want
+    ctx.add('C01.R5', 'Beta.dict_of_elementary_expression', good, g, 'Beta: FREE_BETA iff status == 0, FIXED_BETA iff status != 0' if good else ('Beta answers {name: self} for other kinds / status than BETA, FREE_BETA with status 0, FIXED_BETA with status != 0' if good is False else 'shape not recognised - expected: `return {self.name: self}` under a disjunction of kind tests, `return {}` otherwise'), 'beta-kinds')
     c = prog.find_class('bioLinearUtility', 'expressions')
     g = c.methods['dict_of_elementary_expression']
     good = (
@@ -204,22 +205,13 @@ return ElementsTuple(expressions={pn}, indices=_I, names=_N)
 """) is not None
     ctx.add('C01.R5', 'expressions_names_indices', ok, eni, 'indices[name] = position of name in the sorted list of names' if ok else 'indices are not the enumeration of the sorted names', 'sorted')
     # variables: enumerate(columns)
-    names_var = idx_var = None
-    for n in ast.walk(prep.node):
-        if isinstance(n, ast.Assign) and unparse(n.value) == 'self.database.data.columns.to_list()':
-            names_var = unparse(n.targets[0])
-    ok = False
-    if names_var:
-        for n in ast.walk(prep.node):
-            if isinstance(n, ast.For) and unparse(n.iter) == f'enumerate({names_var})' and isinstance(n.target, ast.Tuple) and len(n.body) == 1:
-                i, v = (unparse(x) for x in n.target.elts)
-                m = re.fullmatch(rf'(\w+)\[{v}\] = {i}', unparse(n.body[0]))
-                if m:
-                    idx_var = m.group(1)
-        if idx_var:
-            ok = any(isinstance(n, ast.Call) and call_name(n) == 'ElementsTuple' and any(k.arg == 'indices' and unparse(k.value) == idx_var for k in n.keywords)
-                     and any(k.arg == 'names' and unparse(k.value) == names_var for k in n.keywords) for n in ast.walk(prep.node))
-    ctx.add('C01.R5', 'IdManager.prepare:variables', ok, prep, 'variableId = position of the column in database.data' if ok else 'variable indices are not the enumeration of the data columns', 'variables')
+    bv = find(prep.node, """
+_NAMES = self.database.data.columns.to_list()
+_IDX = {_V: _K for _K, _V in enumerate(_NAMES)}
+self.variables = ElementsTuple(expressions=None, indices=_IDX, names=_NAMES)
+""")
+    ok = True if bv is not None else None
+    ctx.add('C01.R5', 'IdManager.prepare:variables', ok, prep, 'variableId = position of the column in database.data' if ok else 'shape not recognised - expected: indices = {name: position} over database.data.columns.to_list(), stored with those names', 'variables')
     return {a: '|'.join(sorted(t)) for a, t in id_attrs.items()}
 
 
@@ -586,12 +578,9 @@ def run(ctx: Ctx) -> None:
                 detail=str(built))
         # the class resolves to the class of that name in the expressions package
         if dunder != '__neg__':
-            guard_ok = False
-            for st in f.body:
-                if isinstance(st, ast.If) and any(isinstance(x, ast.Raise) for x in st.body):
-                    t = unparse(st.test).replace(' ', '')
-                    if t == f'not(is_numeric({other})orisinstance({other},Expression))':
-                        guard_ok = True
+            from ..pattern import has as _has
+
+            guard_ok = _has(f.node, f'if not (is_numeric({other}) or isinstance({other}, Expression)):\n    ___\n    raise __EXC')
             if dunder == '__pow__':
                 guard_ok = isinstance(f.body[-1], ast.Raise) and all(
                     isinstance(st, (ast.If, ast.ImportFrom, ast.Raise, ast.Expr)) or (isinstance(st, ast.Assign) and isinstance(st.value, (ast.JoinedStr, ast.Constant))) for st in f.body
@@ -738,26 +727,49 @@ else:
     # ---- R7 literals
     vc = prog.func('expressions.convert', 'validate_and_convert')
     pn = vc.positional_params()[0]
-    outs = []
-    for st in vc.body:
-        if isinstance(st, ast.If):
-            outs.append((unparse(st.test), ' ; '.join(unparse(s) for s in st.body)))
-        else:
-            outs.append(('else', unparse(st)))
-    ok = True
     problems = []
-    m = dict(outs)
-    bool_test = f'isinstance({pn}, bool)'
-    if bool_test in m and m[bool_test] not in (f'return Numeric(1) if {pn} else Numeric(0)', f'return Numeric({pn})', f'return Numeric(float({pn}))', f'return Numeric(int({pn}))'):
-        problems.append(f'bool branch: {m[bool_test]}')
-    num_test = f'is_numeric({pn})'
-    if num_test not in m or m[num_test] not in (f'return Numeric({pn})', f'return Numeric(float({pn}))'):
-        problems.append(f'numeric branch: {m.get(num_test)}')
-    if m.get('else') != f'return {pn}':
-        problems.append(f'an Expression is not returned unchanged: {m.get("else")}')
-    if not any(t == f'not isinstance({pn}, Expression)' and 'raise' in b for t, b in outs):
-        problems.append('non-expressions are not refused')
-    ctx.add('C01.R7', 'validate_and_convert', not problems, vc, 'numbers become Numeric(value), booleans 1/0, expressions pass unchanged, anything else is refused' if not problems else '; '.join(problems), '; '.join(problems))
+    bvc = body_is(vc.body, f"""
+if isinstance({pn}, bool):
+    return __B1 if {pn} else __B0
+if is_numeric({pn}):
+    return __N
+if not isinstance({pn}, Expression):
+    ___
+    raise __EXC
+return __X
+""") or body_is(vc.body, f"""
+if isinstance({pn}, bool):
+    return __B
+if is_numeric({pn}):
+    return __N
+if not isinstance({pn}, Expression):
+    ___
+    raise __EXC
+return __X
+""") or body_is(vc.body, f"""
+if is_numeric({pn}):
+    return __N
+if not isinstance({pn}, Expression):
+    ___
+    raise __EXC
+return __X
+""")
+    if bvc is None:
+        ctx.shape('C01.R7', 'validate_and_convert', False, vc, '', 'bool -> Numeric(1/0); numeric -> Numeric(value); not an Expression -> raise; otherwise the expression itself')
+    else:
+        def hole(k):
+            return unparse(bvc[k][1]) if k in bvc else None
+
+        if '__B1' in bvc and (hole('__B1'), hole('__B0')) != ('Numeric(1)', 'Numeric(0)'):
+            problems.append(f'bool branch: {hole("__B1")} if {pn} else {hole("__B0")}')
+        if '__B' in bvc and hole('__B') not in (f'Numeric({pn})', f'Numeric(float({pn}))', f'Numeric(int({pn}))'):
+            problems.append(f'bool branch: {hole("__B")}')
+        if hole('__N') not in (f'Numeric({pn})', f'Numeric(float({pn}))'):
+            problems.append(f'numeric branch: {hole("__N")}')
+        if hole('__X') != pn:
+            problems.append(f'an Expression is not returned unchanged: {hole("__X")}')
+    if bvc is not None:
+        ctx.add('C01.R7', 'validate_and_convert', not problems, vc, 'numbers become Numeric(value), booleans 1/0, expressions pass unchanged, anything else is refused' if not problems else '; '.join(problems), '; '.join(problems))
     num = prog.find_class('Numeric', 'expressions')
     ni = num.methods['__init__']
     okn = any(unparse(s) in ('self.value = float(value)',) for s in ni.body)
@@ -786,7 +798,15 @@ def _children_converted(prog: Program, c: ClassInfo, init: FuncInfo, param: str)
     for n in ast.walk(init.node):
         if isinstance(n, ast.Assign) and isinstance(n.targets[0], ast.Name):
             local_src.setdefault(n.targets[0].id, set()).update(x.id for x in ast.walk(n.value) if isinstance(x, ast.Name))
-    for n in ast.walk(init.node):
+    from ..normal import as_loop
+
+    loops = [n for n in ast.walk(init.node) if isinstance(n, ast.For)]
+    for st in ast.walk(init.node):
+        if isinstance(st, ast.stmt) and 'self.children' in unparse(st)[:40]:
+            lp = as_loop(st)
+            if lp:
+                loops += [x for y in lp for x in ast.walk(y) if isinstance(x, ast.For)]
+    for n in loops:
         if isinstance(n, ast.For):
             srcs = {x.id for x in ast.walk(n.iter) if isinstance(x, ast.Name)}
             srcs |= set().union(*(local_src.get(s, set()) for s in srcs)) if srcs else set()
